@@ -150,8 +150,10 @@ PROPERTIES = {
                            "product over non-zero columns. bounded stand-in: matrices up to 3x3 incl. large coefficients against "
                            "brute force, and the same polyhedron object queried repeatedly."},
     "C13": {"harness_modules": ["contracts.c13"], "rt": ["rt.arrays:a_rs2_bit_allocation", "rt.arrays:c13_compress"], "level": "other",
-            "assumptions": S_ALL + ["A-rs2: py_optimized_bit_allocation_64 (compiled Rust) is not under contract: the dominance claim of "
-                                    "'shadow' rests on it and is covered by the bounded stand-in only"],
+            "assumptions": S_ALL + ["A-rs2 (assumed contract of the compiled py_optimized_bit_allocation_64, found by experiment): reading the non-zero "
+                                    "values left to right, an entry equal to its predecessor gets the predecessor's weight, any other entry 1 + the "
+                                    "sum of all weights before it; the deductive 'shadow' obligations are proved over its executable form "
+                                    "(pyvc.rsmodel) and the model is validated against the compiled function at run time; 64-bit overflow not modelled"],
             "explanation": "deductive (2-D arrays 1x2, 2x2, 3x2, 2x3 with symbolic entries, both axes; 1-D with axis=None): 'first' / "
                            "'last' / 'min' / 'max' return the first / last non-zero, the smallest non-zero (0 if none) and the largest "
                            "entry of each line. bounded stand-in: 'shadow' (zeros, signs, ties, order incl. later rows above earlier, "
